@@ -66,8 +66,13 @@ def main():
                         for f in os.listdir(rp):
                             shutil.copy(os.path.join(rp, f), os.path.join(ROOT, "refactors", rid, f))
                     alarms.append(p)
-            meta["checks"] = results
-            meta["alarms"] = alarms
+            prev = {}
+            mp = os.path.join(ROOT, "refactors", rid, "meta.json")
+            if prefix == "RECHECK" and os.path.exists(mp):
+                prev = json.load(open(mp)).get("checks", {})
+            prev.update(results)  # a partial re-run keeps the results of the checks it did not run
+            meta["checks"] = prev
+            meta["alarms"] = sorted(p for p, v in prev.items() if v.get("exit", 0) != 0)
             print(f"[{rid}] suite={'pass' if suite_ok else 'FAIL'} alarms={alarms} {[results[p].get('report') for p in alarms]}", flush=True)
             if alarms:
                 rc = 1
